@@ -14,7 +14,8 @@ static int64_t nv_param_max_outer_iters(void) { return nv_max_outers; }
 #define NV_AL_PARAMS_OK (NV_SOLVER_PARAMS_OK && 10 <= nv_max_outers && nv_max_outers <= 1000 && nv_miu_max > 0.0 && nv_gamma > 1.0 && 0.0 < nv_tau && nv_tau < 1.0)
 
 /* ---- preconditions of ::make_criterion, established by the solver loop -------------------------------------------------------
- * ro > 0: ro starts in [ro_min, ro_max] = [1e-6, 10] (std::clamp in make_ro1: assumed contract of that one-liner) and is only
+ * ro > 0: ro starts in [1e-6, 10] (PROVED on the extracted make_ro1 with its default bounds, specs/C05/kkt.py:
+ *   make_ro1/range_of_the_initial_penalty; the call site is checked to use the defaults) and is only
  *   multiplied by gamma > 1.  `ro = gamma * ro` prints as the UNINTERPRETED product NV_FMUL; the one fact about it that is needed
  *   is the sign rule  a > 0 && b > 0 ==> a * b > 0  (proved over the reals: SMT lemma `penalty parameter stays positive`; in IEEE
  *   arithmetic a product with a factor > 1 cannot underflow to 0) -- stated here for every product of the target.
